@@ -60,7 +60,7 @@ def generate(seed, mode):
     nobs = w.randint(1, 3)
     obs = [{'c': w.randrange(ncls), 'dp': w.sample(range(nRi), w.choice([0, 0, 1, 2]))} for _ in range(nobs)]
     if shape == 'chain':
-        nR = w.randint(3, 5)
+        nR = w.randint(3, 6)
     elif shape == 'dense':
         nR = w.randint(1, 3)
     else:
@@ -74,8 +74,12 @@ def generate(seed, mode):
             fl = flav_mode
         regs.append({'flav': fl, 'bases': []})
     # bases: an invalidating registry may only have invalidating bases
+    linear = shape == 'chain' and w.random() < 0.4        # a plain chain bottom -> ... -> top: the deepest shape for its size
     for r in range(nR):
         cands = [b for b in range(r) if regs[r]['flav'] == 'V' or regs[b]['flav'] == 'A']
+        if linear:
+            regs[r]['bases'] = [r - 1] if (r - 1) in cands else []
+            continue
         if shape == 'chain' and cands:
             k = w.choice([1, 1, 2, 2])
         else:
@@ -151,8 +155,39 @@ def generate(seed, mode):
 
         def fromkey():
             return 0 if o.random() < focus_p else o.randrange(64)
+        if shape == 'specdyn' and len(keypool) >= 2:
+            # two keys that share their first component: a single-adapter key and a multi-adapter key that starts with it, so
+            # that the lookup object already tracks the first specification when the longer key is asked for the first time
+            keypool[0] = dict(keypool[0], req=keypool[0]['req'][:1] or [w.randrange(nLK)])
+            keypool[1] = dict(keypool[1], req=keypool[0]['req'][:1] + (keypool[1]['req'][1:] or [w.randrange(nLK)]), r=keypool[0]['r'])
         for _ in range(nops):
             k = o.getrandbits(30)
+            if shape == 'chain' and o.random() < 0.12:
+                # a change in registry X itself (its caches are empty afterwards), then a re-basing of one of X's bases, then
+                # the probe with no lookup in between: the first lookup after the re-basing has to notice it
+                x = o.randrange(nR)
+                pair = [{'op': 'reg', 'r': x, 'req': req(3, 64), 'p': o.randrange(nP), 'n': o.randrange(3),
+                         'v': o.randrange(len(vals)), 'k': k, 'fromkey': fromkey(), 'samepn': True},
+                        {'op': 'rbases', 'r': o.randrange(nR), 'base_of': x, 'bases': [o.randrange(nR) for _ in range(o.choice([1, 1, 2]))], 'k': k}]
+                if o.random() < 0.5:
+                    pair.reverse()          # ... or the re-basing above first and the own change second
+                ops.extend(pair)
+                ops.append({'op': 'probe', 'k': k})
+                continue
+            if shape == 'specdyn' and o.random() < 0.2:
+                # lookup of the short key, lookup of the long key, then a change of what a *later* component of the long key
+                # extends, then the probe: the pairing (earlier lookup, later specification change) the property quantifies over
+                kl = 1 if len(keypool) >= 2 else 0
+                if o.random() < 0.7:
+                    # something registered in the neighbourhood of the long key, so that the change can alter the answer
+                    ops.append({'op': 'reg', 'r': o.randrange(nR), 'req': req(3, 64), 'p': o.randrange(nP), 'n': o.randrange(3),
+                                'v': o.randrange(len(vals)), 'k': k, 'fromkey': kl, 'samepn': o.random() < 0.8})
+                ops.append({'op': 'ask', 'e': o.choice([0, 1, 5, 6]), 'key': 0, 'k': k, 'exact': True})
+                ops.append({'op': 'ask', 'e': o.randrange(len(ENTRIES)), 'key': kl, 'k': k, 'exact': True})
+                ops.append({'op': 'specmut', 'key': kl, 'pos': o.randrange(1, 4), 'bases': [o.randrange(nRi) for _ in range(o.choice([0, 1, 2]))],
+                            'xs': o.sample(range(nRi), o.randint(0, 2)), 'only': o.random() < 0.4, 'also': o.random() < 0.3, 'k': k})
+                ops.append({'op': 'probe', 'k': k})
+                continue
             if o.random() < gc_rate:
                 ops.append({'op': 'gc', 'k': k})
             if o.random() < perm_rate:
@@ -974,12 +1009,30 @@ def execute(program, ctx, mode):
                 if not keys:
                     continue
                 key = keys[op['key'] % len(keys)]
+                if op.get('exact'):
+                    key = W['keypool'][op['key'] % len(W['keypool'])]
+                    if not alive[key['r'] % nR]:
+                        continue
                 # half of the history's lookups hand in a default object of their own (it must never be remembered)
                 kind, a = safe_ask(regs, key, op['e'] % len(ENTRIES), default=(Dflt() if (k >> 7) & 1 else None))
                 ctx.probe('ask-' + kind)
                 ctx.log(step, 'ask', kind, key['r'] % nR, [LK[x % len(LK)] for x in key['req']], key['p'] % (nP + 1), key['n'] % 3, a)
                 continue
             mutated = True
+            if name == 'specmut':
+                # change what one component of a pool key extends: re-base the interface, or re-declare the class / the object
+                key = W['keypool'][op['key'] % len(W['keypool'])]
+                comp = LK[key['req'][op['pos'] % len(key['req'])] % len(LK)] if key['req'] else 'Interface'
+                if comp == 'Interface':
+                    continue
+                if comp[0] == 'R':
+                    op = dict(op, op='irebase', i=int(comp[1:]))
+                elif comp[0] == 'K':
+                    op = dict(op, op='cdecl', c=int(comp[1:]))
+                else:
+                    op = dict(op, op='odecl', o=int(comp[1:]))
+                name = op['op']
+                ctx.probe('specmut-' + name)
             if name == 'reg':
                 r = op['r'] % nR
                 if not alive[r]:
@@ -1106,6 +1159,10 @@ def execute(program, ctx, mode):
                 opk = (s[1], s[2])
             elif name == 'rbases':
                 r = op['r'] % nR
+                if op.get('base_of') is not None and rb[op['base_of'] % nR]:
+                    cand = rb[op['base_of'] % nR]
+                    r = cand[op['r'] % len(cand)]
+                    ctx.probe('rebase-a-base-right-after-own-change')
                 if not alive[r]:
                     continue
                 cands = []
